@@ -30,7 +30,7 @@ use midnight_circuits::{
         self, Accumulator, AssignedAccumulator, AssignedVk, SelfEmulation, VerifierGadget,
     },
 };
-use midnight_curves::{msm::msm_best, Bls12, CurveExt, Fq, G1Affine, G1Projective, G2Affine};
+use midnight_curves::{msm::msm_best, Bls12, Fq, G1Affine, G1Projective, G2Affine};
 use midnight_proofs::{
     circuit::{Layouter, SimpleFloorPlanner, Value},
     plonk::{self, commit_to_instances, create_proof, keygen_pk, keygen_vk, Circuit, ConstraintSystem, Error},
